@@ -8,6 +8,7 @@ import P2PVerif.Driver.Frag
 import P2PVerif.Driver.Ke
 import P2PVerif.Driver.KeT
 import P2PVerif.Driver.DHTNode
+import P2PVerif.Driver.Asker
 import P2PVerif.Driver.Hub
 import P2PVerif.Driver.Stack
 open P2PVerif.Driver
@@ -22,6 +23,7 @@ def streams : List (String × Stream) := [
   ("ke", keStream),
   ("ket", ketStream),
   ("node", nodeStream),
+  ("ask", askStream),
   ("hub", hubStream),
   ("stack", stackStream),
   ("replay", replayStream)
